@@ -69,6 +69,11 @@ pub fn prune_options(
 ) -> Vec<Matchable> {
     let mut available_options = vec![];
 
+    #[cfg(sqruff_verif)]
+    if verif_switches::prune_off() {
+        return options.to_vec();
+    }
+
     // Find the first code element to match against.
     let Some((first_raw, first_types)) = first_non_whitespace(segments, start_idx) else {
         return options.to_vec();
@@ -544,4 +549,27 @@ pub fn trim_to_terminator(
         term_match.span.end,
         idx,
     ))
+}
+
+/// Verification hooks (only with `--cfg sqruff_verif`): thread-local switches that turn the two
+/// parser shortcuts off ("cache always misses", "prune keeps all options").
+#[cfg(sqruff_verif)]
+pub mod verif_switches {
+    use std::cell::Cell;
+
+    thread_local! {
+        static CACHE_OFF: Cell<bool> = const { Cell::new(false) };
+        static PRUNE_OFF: Cell<bool> = const { Cell::new(false) };
+    }
+
+    pub fn set(cache_off: bool, prune_off: bool) {
+        CACHE_OFF.with(|c| c.set(cache_off));
+        PRUNE_OFF.with(|c| c.set(prune_off));
+    }
+    pub fn cache_off() -> bool {
+        CACHE_OFF.with(|c| c.get())
+    }
+    pub fn prune_off() -> bool {
+        PRUNE_OFF.with(|c| c.get())
+    }
 }
